@@ -106,6 +106,26 @@ def run(ck):
         return
     recs += r
     evaluate(ck, recs)
+    # chain switches: ONE node (one module instance, one database) applies common+A, reverts A, applies B; its view of
+    # common+B must equal a fresh node's (the view is a function of the header chain alone, not of what was processed before)
+    b1 = ck.go_build("c01")
+    if b1:
+        unis = ck.run_harness(b1, ["-n", "60" if ck.tier == "quick" else "1500"], out_name="switch.jsonl")
+        nsw = 0
+        for u in unis or []:
+            sw = u.get("obsSwitch") or []
+            nc = len(u["common"])
+            if sw:
+                nsw += 1
+                ck.count()
+            if sw and sw != u["obsB"][nc:nc + len(sw)]:
+                f = dict(kind="history", key="c02:switch", case={k: u[k] for k in ("k", "batch", "gh", "init", "common", "a", "b")},
+                         what="after applying common+A and reverting A, the node's BFT view of common+B differs from a fresh node's "
+                              "view of the same chain", observed={"fresh": u["obsB"][nc:nc + len(sw)][:3], "switched": sw[:3]},
+                         theorem_or_correspondence="C02_same_chain_same_view on the implementation (chain-switch oracle)")
+                f["spec_violated"] = True
+                ck.failures.append(f)
+        ck.extra["chain_switch_universes"] = nsw
     for r in recs[:2]:
         ck.sample({k: r[k] for k in ("batch", "gh", "init", "blocks")})
     nb = sum(len(c["blocks"]) for c in recs)
